@@ -129,6 +129,16 @@ func raw[T safemath.Integer](op string, x, y *big.Int) (out string) {
 		return fmt.Sprint(-a)
 	case "and":
 		return fmt.Sprint(a & b)
+	case "or":
+		return fmt.Sprint(a | b)
+	case "xor":
+		return fmt.Sprint(a ^ b)
+	case "andnot":
+		return fmt.Sprint(a &^ b)
+	case "rem":
+		return fmt.Sprint(a % b)
+	case "not":
+		return fmt.Sprint(^a)
 	case "shl":
 		return fmt.Sprint(a << uint8(y.Uint64()))
 	case "shr":
@@ -289,7 +299,7 @@ func exec(r *hx.Run, line string) string {
 }
 
 var safeOps = []string{"add", "sub", "mul", "div"}
-var rawOps = []string{"add", "sub", "mul", "div", "and"}
+var rawOps = []string{"add", "sub", "mul", "div", "and", "or", "xor", "andnot", "rem"}
 
 func emit(r *hx.Run, line string) {
 	ans := exec(r, line)
@@ -495,7 +505,7 @@ func main() {
 					emit(r, "safe "+op+" "+kn+" "+xs+" "+ys)
 				}
 				for _, op := range rawOps {
-					if op == "div" && y == 0 {
+					if (op == "div" || op == "rem") && y == 0 {
 						continue
 					}
 					emit(r, "raw "+op+" "+kn+" "+xs+" "+ys)
@@ -508,6 +518,7 @@ func main() {
 				emit(r, "raw shr "+kn+" "+xs+" "+ns)
 			}
 			emit(r, "raw neg "+kn+" "+xs+" 0")
+			emit(r, "raw not "+kn+" "+xs+" 0")
 			emit(r, "raw tou64 "+kn+" "+xs+" 0")
 			emit(r, "raw toi64 "+kn+" "+xs+" 0")
 		}
@@ -534,7 +545,7 @@ func main() {
 				emit(r, "safe "+op+" "+k.name+" "+xs+" "+ys)
 			}
 			for _, op := range rawOps {
-				if op == "div" && y.Sign() == 0 {
+				if (op == "div" || op == "rem") && y.Sign() == 0 {
 					continue
 				}
 				emit(r, "raw "+op+" "+k.name+" "+xs+" "+ys)
@@ -544,6 +555,7 @@ func main() {
 			emit(r, "raw shl "+k.name+" "+xs+" "+sh)
 			emit(r, "raw shr "+k.name+" "+xs+" "+sh)
 			emit(r, "raw neg "+k.name+" "+xs+" 0")
+			emit(r, "raw not "+k.name+" "+xs+" 0")
 			emit(r, "raw tou64 "+k.name+" "+xs+" 0")
 			emit(r, "raw toi64 "+k.name+" "+xs+" 0")
 			if k.name == "u64" {
